@@ -53,14 +53,22 @@ def run(ctx):
     u0 = D.Universe(True, prelinked=True)
     f = u0.free_ids
     ids = [u0.id_of(u0.doc.text), f[0], f[1], f[2], f[3], f[6], u0.id_of(u0.doc.styles)]
-    ops = D.all_ops(u0, ids, [ids[0], ids[1], ids[2], ids[6]])
+    ops = D.all_ops(u0, ids, [ids[0], ids[1], ids[2], ids[3], ids[6]])
     for op in ops:
         DC.run_history(ctx, True, [op], [queries], 'C09', prelinked=True)
     n = 0
     for seq in itertools.product(ops, repeat=2):
-        if ctx.quick and (sum(map(hash, map(str, seq))) % 6): continue
+        if ctx.quick and (sum(map(hash, map(str, seq))) % 7): continue
         DC.run_history(ctx, True, list(seq), [queries], 'C09', prelinked=True); n += 1
-    ctx.exhaustive.append('%s%d histories of length 2 over %d operations on a document with a pre-linked subtree' % ('a sixth of the ' if ctx.quick else 'all ', n, len(ops)))
+    ctx.exhaustive.append('%s%d histories of length 2 over %d operations on a document with a pre-linked subtree' % ('a seventh of the ' if ctx.quick else 'all ', n, len(ops)))
+    # detached-subtree scenarios: remove a subtree, edit inside it, look; re-attach it, look again
+    t, p1, p2, sp = ids[0], ids[1], ids[2], ids[3]
+    inner = [o for o in ops if o[1] in (p1, sp) and o[0] in ('append', 'insert', 'addelement', 'addtext')]
+    n = 0
+    for o2 in inner:
+        for readd in (('append', t, p1), ('insert', t, p1, None), ('addelement', t, p1)):
+            DC.run_history(ctx, True, [('remove', t, p1), o2, readd], [queries], 'C09-detached', prelinked=True); n += 1
+    ctx.exhaustive.append('all %d remove-subtree / edit-inside / re-attach scenarios' % n)
     # random histories with renderings interleaved
     for k in range(120 if ctx.quick else 3000):
         u = D.Universe(True, prelinked=ctx.rng.random() < 0.5)
